@@ -48,7 +48,16 @@ META = {
                   "mouette's SurfaceMesh tables (edges, direct_face, interior/boundary) are re-derived in the model "
                   "from the face list and compared; UnionFind enters through `find` only (its partition semantics is "
                   "C20's theorem; C16_rebuild_any_union_find shows nothing else matters); float geometry only "
-                  "influences which spanning tree is chosen.",
+                  "influences which spanning tree is chosen. "
+                  "Deliberately left free: the numbering and order of the vertices of the cut mesh (model and "
+                  "implementation are compared up to a bijection of output vertices; positions and ref_vertex through "
+                  "it), which spanning trees / shortest paths / ties are chosen (any dual spanning tree is accepted), "
+                  "the ids and order of mesh.edges, the container types of cut_edges / cut_adj / ref_vertex, numbering "
+                  "and marking attribute of cut_graph, whether output_mesh is cached between accesses, extra attributes "
+                  "left on the input mesh, log lines and warnings, the exception class of a run() on a non-existent "
+                  "vertex (recorded only); private helper names (if the wrapped helpers disappear the correspondence is "
+                  "reported unproved, not violated). Required because the text states it: any exception on a valid "
+                  "input is a violation; cut_adj (when present) must be the adjacency of cut_edges.",
 }
 
 HEADER = """From Coq Require Import ZArith List Bool.
@@ -63,9 +72,9 @@ CODES = {
     3: "the dual tree of the implementation is not a spanning tree of the dual graph",
     4: "cut_edges before pruning is not the complement of the dual tree",
     5: "pruning: model and implementation disagree on cut_edges",
-    6: "rebuild: output faces differ",
-    7: "rebuild: output vertex positions differ",
-    8: "rebuild: ref_vertex differs",
+    6: "rebuild: output faces differ (beyond a renumbering of the output vertices)",
+    7: "rebuild: output vertex positions differ (through the renumbering)",
+    8: "rebuild: ref_vertex differs (through the renumbering)",
     9: "sphere exception: the cut set is not empty",
     10: "sphere exception: vertices were duplicated",
     11: "cut graph is not connected or misses border edges",
@@ -445,7 +454,12 @@ def run(ctx):
     ctx.log("oracle done: %d failing cases" % len(fails))
     # ---- kernel-checked correspondence + checkers
     bad = []
-    usable = [k for k, o in enumerate(obs) if o.get("ok") and not cases[k].get("big")]
+    usable = [k for k, o in enumerate(obs) if o.get("ok") and not cases[k].get("big")
+              and o.get("evisited") is not None and o.get("cut0") is not None]
+    unobserved = sum(1 for k, o in enumerate(obs) if o.get("ok") and not cases[k].get("big") and k not in set(usable))
+    if unobserved:
+        ctx.obligation("intermediate sets of the cutter (dual tree, cut_edges before pruning) are observable", "harness",
+                       False, "%d cases: the wrapped private helpers were not called; correspondence not evaluated on them" % unobserved)
     ctx.count("oracle-only cases (more than 256 vertices)", sum(1 for c in cases if c.get("big")))
     if b["model_ok"]:
         terms = [case_term(cases[k], obs[k]) for k in usable]
